@@ -12,8 +12,8 @@ from mc import explore
 from mc.universe import Leaf
 
 PROP = 'C13'
-NSS = ('', 'a', 'b')
-OBS_NS = ('', 'a', 'b', 'unk')
+NSS = ('', 'a', 'ab')
+OBS_NS = ('', 'a', 'ab', 'xaby')
 
 
 class Boom(Exception):
@@ -44,8 +44,10 @@ def expected_order(insertion):
 class ModeSystem(explore.System):
     name = 'dict_insertion_ordered'
 
-    def __init__(self, max_nesting):
+    def __init__(self, max_nesting, exit_kinds=('exit', 'raise'), observe_event=False):
         self.max_nesting = max_nesting
+        self.exit_kinds = exit_kinds  # 'exit' normal, 'raise' Exception, 'raise-base' BaseException-only, 'close'
+        self.observe_event = observe_event  # observation in mid-history as an event (it must be side-effect free)
 
     def initial(self):
         return (frozenset(), ())
@@ -58,8 +60,10 @@ class ModeSystem(explore.System):
                 for mode in (True, False):
                     evs.append(('enter', mode, ns))
         if stack:
-            evs.append(('exit',))
-            evs.append(('raise',))
+            for k in self.exit_kinds:
+                evs.append((k,))
+        if self.observe_event:
+            evs.append(('observe',))
         return evs
 
     def step(self, state, ev):
@@ -69,30 +73,43 @@ class ModeSystem(explore.System):
             prev = ns in S
             S2 = S | {ns} if mode else S - {ns}
             return (S2, (*stack, (ns, prev))), 'ok'
+        if ev[0] == 'observe':
+            return state, 'ok'
         ns, prev = stack[-1]
         S2 = S | {ns} if prev else S - {ns}
         return (S2, stack[:-1]), 'ok'
 
     # ---- implementation side ---------------------------------------------------------------------
     def _apply(self, cms, ev):
+        """Every block is a real `with` statement inside a generator: entered by next(), left normally by next(),
+        by an Exception / a BaseException-only exception thrown in, or by abandoning the generator (close())."""
         if ev[0] == 'enter':
             _, mode, ns = ev
-            cm = optree.dict_insertion_ordered(mode, namespace=GLOBAL if ns == '' else ns)
-            cm.__enter__()
-            cms.append(cm)
+
+            def holder():
+                with optree.dict_insertion_ordered(mode, namespace=GLOBAL if ns == '' else ns):
+                    yield 'inside'
+                yield 'after'
+
+            g = holder()
+            next(g)
+            cms.append(g)
             return 'ok'
-        cm = cms.pop()
+        if ev[0] == 'observe':
+            self.observe()
+            return 'ok'
+        g = cms.pop()
         if ev[0] == 'exit':
-            r = cm.__exit__(None, None, None)
-            return 'ok' if not r else 'swallowed'
+            return 'ok' if next(g) == 'after' else 'swallowed'
+        if ev[0] == 'close':
+            g.close()
+            return 'ok'
+        exc = Boom() if ev[0] == 'raise' else KeyboardInterrupt()
         try:
-            raise Boom  # noqa: TRY301
-        except Boom as e:
-            try:
-                r = cm.__exit__(type(e), e, e.__traceback__)
-            except Boom:
-                return 'ok'  # re-raised: propagates
-            return 'ok' if not r else 'swallowed'
+            g.throw(exc)
+        except (Boom, KeyboardInterrupt) as e:
+            return 'ok' if e is exc else 'replaced'  # propagates out of the block
+        return 'swallowed'
 
     def observe(self):
         vec = {}
@@ -181,7 +198,7 @@ class ModeSystem(explore.System):
         finally:
             while cms:
                 try:
-                    cms.pop().__exit__(None, None, None)
+                    next(cms.pop())
                 except Exception:  # noqa: BLE001
                     pass
             for ns in NSS:
@@ -198,13 +215,13 @@ class ModeSystem(explore.System):
 
 def run_shard(ctx):
     nesting, depth, hlen = (3, 6, 6) if ctx.tier == 'quick' else (4, 8, 8)
-    explore.bfs(ctx, ModeSystem(nesting), depth, label=f'bfs-nest{nesting}')
-    explore.all_histories(ctx, ModeSystem(3), hlen, label=f'all-histories-len{hlen}')
+    explore.bfs(ctx, ModeSystem(nesting, exit_kinds=('exit', 'raise', 'raise-base', 'close')), depth, label=f'bfs-nest{nesting}')
+    explore.all_histories(ctx, ModeSystem(3, observe_event=True), hlen, label=f'all-histories-len{hlen}')
 
 
 def replay(case, ctx):
     c = case['case']
-    sysm = ModeSystem(8)
+    sysm = ModeSystem(8, exit_kinds=('exit', 'raise', 'raise-base', 'close'), observe_event=True)
     state = sysm.initial()
     hist = [tuple(e) for e in c['history']]
     for h in hist:
